@@ -2248,6 +2248,12 @@ def _patch_exec():
                                               lambda st2: self.assign(tgt, sv_v(L.sentinel("deleted_attr"), "sentinel"), st2, ctx, ctx.k))
             self.assumptions.add("`del obj.attr` is modelled as storing a distinguished <deleted> value; AttributeError when the attribute is already missing is not modelled")
             return self.assign(tgt, sv_v(L.sentinel("deleted_attr"), "sentinel"), st, ctx, ctx.k)
+        if all(isinstance(t, ast.Name) for t in s.targets):
+            # del local_name: the binding goes away (contract clauses see parameters by their entry values anyway)
+            env = dict(st.env)
+            for t in s.targets:
+                env.pop(t.id, None)
+            return ctx.k(st.copy(env=env))
         if len(s.targets) != 1 or not isinstance(s.targets[0], ast.Subscript):
             raise OutOfSubset("del form")
         tgt = s.targets[0]
@@ -2990,6 +2996,9 @@ def _patch_calls():
                     # the call site knows more about the result's class than the callee's (generic) contract does
                     k2 = lambda r, st9: k(SV("v", self.to_v(r), spec["returns"]), st9)
                 return self.ev_contract_call(fnc, recv_node, call, st, ctx, k2)
+            if tgt.startswith("construct:"):
+                # the class is under contract under another name: allocate and run its __init__ contract
+                return self.ev_construct(tgt[10:], node, st, ctx, k)
             if tgt.startswith("clobber:"):
                 # a call whose only modelled effect is an arbitrary change of the contents of the named container
                 # (sound over-approximation of e.g. d.update(<comprehension>)); its arguments are not evaluated
